@@ -419,7 +419,7 @@ PROPS["C06"] = Prop(
     "C06",
     # allocations above 256 MiB fail (allocator_may_return_null): a document asking for a 10^5 x 10^5 matrix is refused by malloc as it
     # would be on a real machine, instead of costing seconds of shadow-memory poisoning that the CPU limit would blame on hwloc
-    [Stage("asan", "c06_xmlfuzz", "asan", quick=16000, thorough=800000, per_worker_env=xml_backend_env,
+    [Stage("asan", "c06_xmlfuzz", "asan", quick=16000, thorough=600000, per_worker_env=xml_backend_env,
            env={"ASAN_OPTIONS_EXTRA": "max_allocation_size_mb=256"}),
      # under memcheck a multi-GB malloc simply succeeds lazily; the uninstrumented importer then only touches what the document provides
      valgrind_stage("c06_xmlfuzz", 4800, per_worker_env=xml_backend_env, env={"VERIF_NO_HUGE_ALLOC": "1"})],
@@ -675,7 +675,7 @@ PROPS["C10"] = Prop(
 
 PROPS["C18"] = Prop(
     "C18",
-    [Stage("asan", "c18_snapshots", "asan", quick=1600, thorough=60000, need_snapshots=True, per_worker_env=xml_backend_env),
+    [Stage("asan", "c18_snapshots", "asan", quick=1600, thorough=40000, need_snapshots=True, per_worker_env=xml_backend_env),
      valgrind_stage("c18_snapshots", 800, need_snapshots=True, per_worker_env=xml_backend_env)],
     rule=("every case hard-link-clones one bundled snapshot (42 Linux fsroots, 29 x86 CPUID dumps, the x86+linux pairs; cycling), removes a set "
           "of paths from the clone (1/4 of the cases none, 1/4 one or two paths under sys/devices/system, 1/4 up to 8, 1/4 up to 40 biased to "
